@@ -22,9 +22,11 @@ CHECKS = {
     "C03": dict(level="model_checking", ref="6 C03",
                 text="Metamorphic law as a theorem of the spec: TLC checks Search(inject(p)) = Search(p) on the model and requires the rows "
                      "recorded for every single-site (?=)-injection (exported from Gram!Injections) and seeded multi-site injections to equal "
-                     "the reference result of the base pattern, all groups.",
+                     "the reference result of the base pattern, all groups. The text handed to the regex crate is covered directly: ToStr.tla mirrors Expr::to_str, "
+                     "MC_ToStr shows the printed text re-reads (RxRead.tla) to the subtree's meaning at every precedence and for runs of pieces, and TraceToStr "
+                     "judges the REAL printed text of every subtree of every input by its meaning.",
                 note="Same bounds as C01; injected spellings that do not compile are skipped as the property allows. " + TCB,
-                technique="TLC-checked spec lemma + trace validation of injected spellings against the base pattern's reference result"),
+                technique="TLC-checked spec lemma + trace validation of injected spellings against the base pattern's reference result + TLA+ mirror of Expr::to_str model-checked (MC_ToStr) and trace-validated by meaning (TraceToStr/RxRead)"),
     "C04": dict(level="model_checking", ref="6 C04",
                 text="Every public entry point is recorded on fancy_regex::Regex and on regex::Regex for the same pattern string; TLC requires the two "
                      "recordings to be equal (the property verbatim) and both equal to Api.tla over RefSem; iterator laws model-checked in MC_Iter.",
@@ -64,13 +66,15 @@ CHECKS = {
                 technique="trace validation of recorded API values against the coherence predicate of the TLA+ API model"),
     "C10": dict(level="model_checking", ref="6 C10",
                 text="MC_Iter checks the Split/SplitN machines against the partition laws (pieces = matches+1, tiling, remainder, n=0) for every leaf behaviour; "
+                     "ApaSplit.tla: Apalache discharges an inductive invariant (valid slices, tiling, limit countdown) for EVERY text length and limit; "
                      "recorded piece sequences of split and splitn(0..5) are validated by TLC against RefSplit/RefSplitN over the reference matches.",
-                note="As C08.", technique="TLC model checking of Split/SplitN + trace validation of recorded piece sequences"),
+                note="As C08.", technique="TLC model checking of Split/SplitN + Apalache inductive invariant for every text length and limit + trace validation of recorded piece sequences"),
     "C11": dict(level="model_checking", ref="6 C11",
                 text="Recorded try_replacen results (string, Cow variant, errors) for limits 0..3 x 8 replacers are validated by TLC against RefReplace over the "
-                     "reference matches, with Expand.tla giving the meaning of templates; borrowed results are counted and must equal the number of match-less texts.",
+                     "reference matches, with Expand.tla giving the meaning of templates; borrowed results are counted and must equal the number of match-less texts. "
+                     "ApaReplace.tla: Apalache discharges an inductive invariant of the replacement loop (valid slices, copied stretches and replaced matches tile the text, at most K replacements) for EVERY text length and limit.",
                 note="Texts up to length 2 exhaustively (3 sampled in thorough); pattern bounds as C08. " + TCB,
-                technique="trace validation of recorded replacement results against the TLA+ API/Expand model"),
+                technique="trace validation of recorded replacement results against the TLA+ API/Expand model + Apalache inductive invariant of the replacement loop"),
     "C12": dict(level="model_checking", ref="6 C12",
                 text="MC_Expand model-checks the template scanner step by step (escape round trip, check soundness, progress, step-wise output = Expansion) for every "
                      "template up to the bound; recorded outputs of all public expansion entry points, check() and escape() are recomputed by TLC (TraceExpand).",
@@ -116,7 +120,8 @@ CHECKS = {
                 text="Spell.tla generates, for every base pattern, the documented-equivalent spellings (13 styles: free spacing and comments, named/numbered/relative "
                      "references, inline vs scoped flags, hex/unicode escapes, possessive vs atomic, \\A \\z); every spelling is compiled and run over all cells; TLC "
                      "requires rows = RefSem of the base pattern and the same parser tree as the plain spelling; in the other direction the real parser's tree for "
-                     "every spelling must equal the tree Parse.tla (parser model) computes, and in the model a spelling and its plain form must parse alike.",
+                     "every spelling must equal the tree Parse.tla (parser model) computes, and in the model a spelling and its plain form must parse alike; "
+                     "MC_Front closes the loop in the specification: Norm(Abs(Parse.tla(Spell(ast, style)))) = Norm(ast), group count and named-group map, for every pattern x style.",
                 note="Spellings are generated by Spell.tla; the parser is ALSO modelled as a recogniser (Parse.tla), validated on every spelling and on the C06 input spaces. Findings F10 (inline flags leaking out of capturing "
                      "groups) and F11 (blank inside a class under (?x)) are recorded, probed by witnesses and kept out of the generated styles. " + TCB,
                 technique="TLA+ generative model of the concrete syntax + trace validation of recorded searches and parser trees"),
